@@ -91,16 +91,17 @@ func (w *World) expandable(ctx *FCtx, call ssa.CallInstruction) *ssa.Function {
 	}
 	var h *ssa.Function
 	cs := w.CalleesOf(call)
+	cc := call.Common()
+	_, isClosureLit := cc.Value.(*ssa.MakeClosure)
 	switch {
+	case !cc.IsInvoke() && cc.StaticCallee() == nil && !isClosureLit:
+		// a call through a function-typed parameter: resolved in this call context; failing that, the single
+		// function that is ever handed in
+		h, _ = w.calleeEnv(call, ctx.en)
 	case len(cs) == 1:
 		h = cs[0]
 	case len(cs) > 1:
 		h = w.PreferredCallee(call)
-	default:
-		// a call through a function-typed parameter: resolved in this call context
-		if cc := call.Common(); !cc.IsInvoke() && cc.StaticCallee() == nil {
-			h, _ = w.calleeEnv(call, ctx.en)
-		}
 	}
 	if h == nil || len(h.Blocks) == 0 || !w.InSet(h) || w.IsGenerated(h) {
 		return nil
@@ -740,3 +741,9 @@ func singleFieldStore(al *ssa.Alloc, i int) ssa.Value {
 
 // Child returns the context created by expanding call inside c (nil when the call was not expanded).
 func (c *FCtx) Child(call ssa.CallInstruction) *FCtx { return c.kids[call] }
+
+// EstablishedEdgesIn: the edges of the context's function on which a predicate accepted by m holds, with the
+// context's parameters expressed in the root's terms.
+func (w *World) EstablishedEdgesIn(ctx *FCtx, m Matcher, depth int) map[[2]int]bool {
+	return w.establishedEdges(ctx.Fn, m, ctx.en, depth, map[holdKey]bool{})
+}
